@@ -404,7 +404,7 @@ class History:
         s = self.sim.stations[sids[ssel % len(sids)]]
         plugs = sorted(s.state.keys())
         c = plugs[csel % len(plugs)]
-        factor = [0.0, 0.25, 0.5, 0.5, 1.0][fsel % 5]
+        factor = [0.0, 0.001, 0.25, 0.5, 1.0][fsel % 5]  # switched off, trickle, limited, full
         factory = self.env.chargers.get(c)
         if factory is None or factory.rate <= 0:
             return
